@@ -4,7 +4,7 @@ import json
 import random
 
 from . import core, treeio, fam_io, fam_cli
-from .run_writers import kind
+from .run_writers import kind, LENKINDS
 from .run_readers import gapdeg
 
 ch = treeio.chars
@@ -58,7 +58,38 @@ def session_defs(tier):
                                   '[on |-> TRUE, op |-> "gt", val |-> 2]}')}
 
 
+CFG_O = """CONSTANTS Alphabet = {"a", "b", ":", "1", "2"}
+ L = %d
+ MaxOpts = %d
+INIT Init
+NEXT Next
+INVARIANT Inv
+INVARIANT Emit
+CHECK_DEADLOCK FALSE
+"""
+
+
+def record_options_case(cid, opts):
+    mods = treeio.repo_modules()
+    strs = [''.join(o) for o in opts]
+    c = {'id': cid, 'origin': 'tlc', 'opts': opts, 'out': [], 'res': 'ok', 'events': []}
+    try:
+        d = mods['misc'].options_dict(strs)
+        for k, v in d.items():
+            if v is True:
+                c['out'].append({'k': ch(k), 't': 'true', 'v': 0, 's': []})
+            elif isinstance(v, int) and not isinstance(v, bool):
+                c['out'].append({'k': ch(k), 't': 'int', 'v': v, 's': []})
+            else:
+                c['out'].append({'k': ch(k), 't': 'str', 'v': 0, 's': ch(v) if isinstance(v, str) else ['?']})
+    except Exception as ex:
+        c['res'] = 'exc'
+    return c
+
+
 def site_of(case, step):
+    if 'opts' in case and 'srcfmt' not in case:
+        return 'options_dict'
     if 1 <= step <= len(case['events']):
         return '%s->%s:%s' % (case['srcfmt'], case['destfmt'], case['events'][step - 1]['a'])
     return '*'
@@ -72,6 +103,8 @@ def run(prop, tier, seed, replay=None, rep=None, finish=True):
     want = (lambda c: c.startswith(prop + '.'))
     with core.Work('ses') as w:
         core.sany(w, 'Trace_Session')
+        core.sany(w, 'Trace_Options')
+        core.sany(w, 'MC_Options')
         cases = []
         if replay:
             cases = [json.load(open(replay))['case']]
@@ -93,7 +126,8 @@ def run(prop, tier, seed, replay=None, rep=None, finish=True):
                     seen.add(k)
                     structs.append(c)
             # concrete trees
-            kinds = [kind('w', sfx=True), kind('a&b'), kind(u'Üb', sfx=True)] + ([kind('x' * 8)] if tier != 'quick' else [])
+            kinds = [kind('w', sfx=True), kind('a&b'), kind(u'Üb', sfx=True), LENKINDS[0], LENKINDS[4]] + \
+                ([kind('x' * 8)] + LENKINDS[1:4] if tier != 'quick' else [])
             m = dict(N=3, MaxCons=2, MaxChain=1) if tier == 'quick' else dict(N=3, MaxCons=3, MaxChain=2)
             core.gen_module(w, 'MCR', ['MC_Readers'], {
                 'c_TokKinds': core.Raw('{' + ', '.join(core.tla(x) for x in kinds) + '}'),
@@ -143,12 +177,28 @@ def run(prop, tier, seed, replay=None, rep=None, finish=True):
                     k += 1
             rep.exhaustive = True
             cases = core.pmap(fam_cli.record_cli_case, args, chunksize=4)
+        ocases = []
+        if prop == 'C03' and not replay:
+            ro = core.tlc(w, 'MC_Options', CFG_O % ((3, 2) if tier == 'quick' else (4, 2)), timeout=1200)
+            core.tlc_ok(ro, 'MC_Options')
+            rep.add_mc('MC_Options', ro, 'all option lists over {a b : 1 2}: one entry per key, last one wins')
+            seen_o = set()
+            for c in ro.cases:
+                k_ = json.dumps(c['opts'])
+                if k_ not in seen_o:
+                    seen_o.add(k_)
+                    ocases.append(record_options_case('O-%06d' % len(seen_o), c['opts']))
+        if replay and 'srcfmt' not in cases[0]:
+            ocases, cases = cases, []
         byid = {c['id']: c for c in cases}
+        vo, _ = core.validate_traces(w, 'Trace_Options', ocases, cfg='INIT TInit\nNEXT TNext\nCHECK_DEADLOCK FALSE\n', chunk=20000, tag='op')
         verdicts, wall = core.validate_traces(w, 'Trace_Session', cases, header={'config': cfgc}, cfg=TRACE_CFG, chunk=300)
         rep.extra['trace_validation_wall_s'] = round(wall, 1)
         rep.extra['cli_runs'] = sum(1 for c in cases for e in c['events'] if e['a'] in ('run', 'back'))
         pairs_seen = sorted({'%s->%s' % (c['srcfmt'], c['destfmt']) for c in cases})
         rep.extra['format_pairs'] = pairs_seen
+        byid.update({c['id']: c for c in ocases})
+        verdicts.update(vo)
         rep.judge(byid, verdicts, site_of=site_of, clause_filter=want)
         rep.rule = (rep.rule + ' || ' if rep.rule else '') + ('TLC explores the run state machine of Session.tla for every argument record (file or 2-file directory x split '
                     'specification x length filter x destination) and emits each; each is instantiated with concrete trees from a '
